@@ -761,7 +761,7 @@ class Check(PropertyCheck):
         "C18_update_if_newer_counter_history")]
     extractors = ["x_ninjabuild"]
     harnesses = []
-    level = "partial"
+    level = "proof"
     assumptions = [
         "hand model of the Ninja driver's decision logic (commandIsResultValid, provideValue accumulation, inputsAvailable decision chain); "
         "table-like parts regenerated from lib/Commands/NinjaBuildCommand.cpp by x_ninjabuild (value kinds, guard order, comparison operators, request kinds)",
